@@ -206,6 +206,13 @@ func c05CheckDec(c c05DecCase) h.Result {
 		if !bytes.Equal(mb, in) {
 			r.Fail("Scalar.MarshalBinary:roundtrip", "in=%x out=%x", in, mb)
 		}
+		// the returned slice is the caller's
+		for i := range mb {
+			mb[i] ^= 0xa5
+		}
+		if !bytes.Equal(scBytes(&u), in) {
+			r.Fail("Scalar.MarshalBinary:returned-slice-aliases-the-receiver", "in=%x", in)
+		}
 	}
 	r.Eval(1)
 	s2, err := NewFromCanonicalBytes(in)
